@@ -449,6 +449,7 @@ def run(ctx):
     app_sessions(ctx)
     long_run(ctx, mod)
     wire_stage(ctx)
+    links_hazard(ctx)
     threads_stage(ctx)
 
 
@@ -526,6 +527,77 @@ def wire_stage(ctx):
                           "schedule %s: %s; event %s" % (v["id"], v["tag"], {k: (bytes(x).decode("latin1") if k == "raw" else x) for k, x in e.items()}),
                           dict(schedule=v["id"], events=[{k: (bytes(x).decode("latin1") if k == "raw" else x) for k, x in ev.items()} for ev in t["ev"]]))
     ctx.extra["link_schedules"] = nsched
+
+
+def links_hazard(ctx):
+    """Growth beyond the statement (DESIGN 12.6): the clock thread walks the link list while the main
+    thread detaches a link (POWEROFF of another transceiver).  spec/ClckLinks.tla: with a walk over a
+    snapshot every link attached throughout the tick is served (MC_ClckLinksSnapshot), with a walk over
+    the live list one can be skipped (MC_ClckLinksHazard - expected to be violated).  The real code is
+    run through the same schedules and what it does is recorded as an observation, not as a verdict:
+    neither C09 nor C12 quantifies over this schedule."""
+    import threading
+    sys.path.insert(0, os.path.join(ROOT, "harness", "py"))
+    import baton
+    import faketrx_drv as F
+    ok = tlc.run("ClckLinks.tla", "MC_ClckLinksSnapshot.cfg", workers=2, timeout=600)
+    ctx.require_ok("MC ClckLinks (walk over a snapshot: every link attached throughout a tick is served)", ok)
+    hz = tlc.run("ClckLinks.tla", "MC_ClckLinksHazard.cfg", workers=2, timeout=600)
+    ctx.add_tlc("MC ClckLinksHazard (walk over the live list: expected to be violated - a link is skipped)", hz)
+    skips = runs = 0
+    try:
+        sim = F.Sim([])
+        g = sim.app.clck_gen
+        g.ind_period = 1
+
+        def power(on):
+            for t, (rx, tx) in ((0, (890200, 935200)), (1, (935200, 890200))):
+                sim.cmd(t, b"CMD POWEROFF\0")
+            if on:
+                for t, (rx, tx) in ((0, (890200, 935200)), (1, (935200, 890200))):
+                    sim.cmd(t, b"CMD RXTUNE %d\0" % rx)
+                    sim.cmd(t, b"CMD TXTUNE %d\0" % tx)
+                    sim.cmd(t, b"CMD POWERON\0")
+
+        def one(first, k1, k2):
+            power(True)
+            got = []
+            bt = baton.Baton(("udp_link.py",))
+            sim.net.take()
+
+            def hook(sock, data, addr):
+                i, kind = sim.sock2.get(id(sock), (-1, "?"))
+                if kind == "clck":
+                    got.append(i)
+            sim.net.hook = hook
+
+            def sock():
+                threading.current_thread().name = "sock"
+                sim.trx[0].ctrl_if.sock.feed(b"CMD POWEROFF\0", ("127.0.0.1", 1))
+                sim.trx[0].ctrl_if.handle_rx()
+
+            def clk():
+                threading.current_thread().name = "clk"
+                g.send_clck_ind()
+            try:
+                steps = bt.run({"sock": sock, "clk": clk}, first, k1, k2)
+            finally:
+                sim.net.hook = None
+            return steps, got
+        st, _ = one("sock", 10 ** 6, 0)
+        ns, nc = st.get("sock", 0), st.get("clk", 0)
+        for k1 in range(0, nc + 1):
+            for k2 in range(0, ns + 1):
+                _, got = one("clk", k1, k2)
+                runs += 1
+                if 1 not in got:          # transceiver 2 stays powered on throughout: its link is attached
+                    skips += 1
+        power(False)
+        note = "the link of a transceiver that stays powered on missed the indication in %d of %d schedules" % (skips, runs)
+    except Exception as e:          # an observation must not stop the check
+        note = "not reproduced on this tree (%s)" % type(e).__name__
+    ctx.extra["clock_link_skip_hazard"] = dict(spec_violation=(hz.violation or {}).get("name"), schedules=runs,
+                                               real_code_skips=skips, note=note)
 
 
 def long_run(ctx, mod):
